@@ -272,4 +272,26 @@ theorem window_lengths' (o : Opts) (Q sr f s1 : ℝ) (freqs : List ℝ) (icv : O
     cases ht : o.time <;>
       simp [ht, lfilter_length, addBack_length, addOneCycle]
 
+
+/-! ### vrs area weights = trapezoid rule + half an end cell at each end -/
+
+theorem vrsInner_eq (rest : List (ℝ × ℝ)) : ∀ p c gc : ℝ,
+    vrsInner p c gc rest = (c - p) / 2 * gc + trapz ((c, gc) :: rest) + endHalf p c gc rest := by
+  induction rest with
+  | nil => intro p c gc; simp only [vrsInner, trapz, endHalf]; ring
+  | cons x rest ih =>
+    intro p c gc
+    obtain ⟨n, gn⟩ := x
+    simp only [vrsInner, trapz, endHalf]
+    rw [ih c n gn]
+    ring
+
+theorem vrsSum_eq (f0 g0 f1 g1 : ℝ) (rest : List (ℝ × ℝ)) :
+    vrsSum ((f0, g0) :: (f1, g1) :: rest)
+      = some (trapz ((f0, g0) :: (f1, g1) :: rest) + (f1 - f0) / 2 * g0 + endHalf f0 f1 g1 rest) := by
+  simp only [vrsSum, trapz]
+  rw [vrsInner_eq]
+  congr 1
+  ring
+
 end PyYetiVerif.Srs
